@@ -66,6 +66,8 @@ func execSched(h *caseHdr, ev M, line []byte) any {
 		wake   chan struct{}
 		state  string // new | parked | running | blocked | done
 		result M
+		data   []byte        // the input of an unmarshal op
+		back   reflect.Value // what it was decoded into
 	}
 	ps := make([]*pstate, n)
 	events := make(chan schedEv, 64)
@@ -88,7 +90,7 @@ func execSched(h *caseHdr, ev M, line []byte) any {
 	for i := range hd.Procs {
 		i := i
 		pr := hd.Procs[i]
-		st := &pstate{wake: make(chan struct{}), state: "new", result: M{"op": pr.Op, "panic": false, "where": "", "msg": "", "err": "", "bytes": []any{}, "back": []any{}}}
+		st := &pstate{wake: make(chan struct{}), state: "new", result: M{"op": pr.Op, "panic": false, "where": "", "msg": "", "err": "", "bytes": []any{}, "back": []any{}, "backAfter": []any{}}}
 		ps[i] = st
 		gt := abs.GoType(pr.T)
 		in := reflect.New(gt)
@@ -100,6 +102,7 @@ func execSched(h *caseHdr, ev M, line []byte) any {
 			if err != nil {
 				st.result["err"] = "preparation: " + err.Error()
 			}
+			st.data = data
 		}
 		go func() {
 			gmu.Lock()
@@ -117,6 +120,7 @@ func execSched(h *caseHdr, ev M, line []byte) any {
 					err := inst.Unmarshal(data, back.Interface())
 					st.result["err"] = errStr(err)
 					st.result["back"] = abs.Project(pr.T, back.Elem())
+					st.back = back
 				case "codec":
 					_, err := inst.CodecForType(gt)
 					st.result["err"] = errStr(err)
@@ -218,6 +222,22 @@ func execSched(h *caseHdr, ev M, line []byte) any {
 			if round > 200 {
 				stuck = true
 			}
+		}
+	}
+	// C11 under concurrency: once everything has returned the callers re-use their input buffers; what was decoded must not change
+	for i, st := range ps {
+		if st.state == "done" && st.back.IsValid() && st.result["panic"] == false {
+			for j := range st.data {
+				st.data[j] = 'X'
+			}
+		}
+		_ = i
+	}
+	for i, st := range ps {
+		if st.state == "done" && st.back.IsValid() && st.result["panic"] == false {
+			st.result["backAfter"] = abs.Project(hd.Procs[i].T, st.back.Elem())
+		} else {
+			st.result["backAfter"] = st.result["back"]
 		}
 	}
 	results := []any{}
